@@ -468,6 +468,23 @@ def bfs(rep):
         if not any("max_states" in x or "max_depth" in x for x in g):
             okc = False
     rep.ob("O20.4", "DOM", fi, okc, [type(n).__name__ for n in cuts], "the search is cut only by the state/depth bounds")
+    # the bounds that cut the search are the caller's / the configuration's; a tightening must still admit every firing sequence
+    for bname in ("max_depth", "max_states"):
+        for d_ in [x for x in defs.get(bname, []) if x.kind == "assign"]:
+            e = d_.value
+            if pmatch(f"{bname} if {bname} is not None else self._config.{bname}", e) is not None:
+                continue
+            mm = pmatch(f"min({bname}, $$x)", e) or pmatch(f"min($$x, {bname})", e)
+            verdict, why = None, "bound re-computed in a way the rule does not model"
+            if mm and bname == "max_depth":
+                xs = origin(defs, [a for a in e.args if norm(a) != bname][0])
+                sm = [c_ for c_ in ast.walk(xs) if isinstance(c_, ast.Call) and call_name(c_) == "sum" and c_.args and isinstance(c_.args[0], ast.GeneratorExp)]
+                if sm and is_const(sm[0].args[0].elt, 1):
+                    verdict, why = False, "the cap counts supply PLACES, not supply tokens: a reaction that must fire k > 1 times needs k steps"
+                elif sm and M0 and isinstance(sm[0].args[0].elt, ast.Name) and pmatch(f"{M0[0]}.items()", sm[0].args[0].generators[0].iter) is not None \
+                        and isinstance(sm[0].args[0].generators[0].target, ast.Tuple) and norm(sm[0].args[0].generators[0].target.elts[1]) == sm[0].args[0].elt.id:
+                    verdict, why = True, "the cap is the total number of supply tokens (no firing sequence is longer)"
+            rep.ob("O20.4", "DOM", fi, verdict, alpha(d_.stmt, fi.node), "a search bound other than the caller's / the configuration's must not exclude a valid firing sequence (" + why + ")", node=d_.stmt)
     tl = [l for l in walk_local(fi.node) if isinstance(l, ast.For) and norm(l.iter) == f"{NETV}.transitions"]
     rep.ob("O20.4", "DOM", fi, len(tl) == 1 and norm(tl[0].target) == TID, "for tid in net.transitions", "every transition is tried in every explored marking")
     mk = origin(defs, ast.Name(id=MK, ctx=ast.Load()))
